@@ -18,7 +18,9 @@ EXTENDS Integers, Sequences, TLC
 CONSTANTS MaxLen, Mode
 
 Sigma == << "<", ">", "&", "\"", "'", "`", "/", "=", " ", "a", "script", "style=", "onerror=", "</div>", "</style>", "-->",
-            "&lt;", "&amp;", "&#39;", "&quot" >>
+            "&lt;", "&amp;", "&#39;", "&quot",
+            "@", "$", "~", "^" >>   \* stand for FULLWIDTH " < > & (U+FF02, U+FF1C, U+FF1E, U+FF06): ordinary characters for
+                                    \* HTML that must be shown verbatim (TLA+ strings are ASCII; the harness maps both ways)
 NS == Len(Sigma)
 
 \* ---- characters
